@@ -507,6 +507,30 @@ theorem C12_failfast_stop (f : List Nat) (l : Loc) (k : Kind) (id : TId)
   · intro o ho
     rcases ho with ho | ho <;> simp [runOp, ho]
 
+/-- **C12 (a test's tags are not used up by its first outcome)** — forwarding an outcome leaves the buffered tags (test-local
+and run-level) and the "inside a test" flag as they were, whether or not a call of the block raised: every further outcome of
+the same test replays the same tags (`C12_second_outcome_same_tags`); only `stopTest()` forgets the test-local ones. -/
+theorem C12_tags_survive_outcome (f : List Nat) (l : Loc) (k : Kind) (id : TId) :
+    (stepOp f l (.outcome k id)).loc.ttags = l.ttags ∧ (stepOp f l (.outcome k id)).loc.gtags = l.gtags
+      ∧ (stepOp f l (.outcome k id)).loc.inTest = l.inTest ∧ (stepOp f l (.stopTest id)).loc.ttags = ([], []) := by
+  refine ⟨?_, ?_, ?_, rfl⟩ <;> (simp only [stepOp]; split <;> rfl)
+
+/-- **C12 (two outcomes inside one startTest / stopTest bracket)** — what stdlib unittest emits for a failing body plus a
+failing tearDown: `startTest t · addFailure t · addError t · stopTest t`.  Each outcome gets its own whole block, and BOTH
+blocks carry the run-level tags and the test's own tags (the second block has no start time of its own: `time(None)`). -/
+theorem C12_second_outcome_same_tags (l : Loc) (id : TId) (k k' : Kind) :
+    (sections [] false l [.outcome k id, .outcome k' id]).1
+      = [ [(.time l.start, false), (.startTest id, false), (.time l.nowT, false)]
+            ++ (if anyTags l.gtags then [(Call.tags l.gtags.1 l.gtags.2, false)] else [])
+            ++ (if anyTags l.ttags then [(Call.tags l.ttags.1 l.ttags.2, false)] else [])
+            ++ [(.outcome k id, false), (.stopTest id, false)],
+          [(.time .unset, false), (.startTest id, false), (.time l.nowT, false)]
+            ++ (if anyTags l.gtags then [(Call.tags l.gtags.1 l.gtags.2, false)] else [])
+            ++ (if anyTags l.ttags then [(Call.tags l.ttags.1 l.ttags.2, false)] else [])
+            ++ [(.outcome k' id, false), (.stopTest id, false)] ] := by
+  by_cases hg : anyTags l.gtags = true <;> by_cases ht : anyTags l.ttags = true <;>
+    simp [sections, runOp, secList, stepOp, preCalls, emit, Loc.nowT, hg, ht]
+
 /-- **C12 (release)** — after *any* schedule a thread that stands at an operation boundary (its remaining steps
 are whole sections) does not hold the semaphore — whether or not the operation before raised. -/
 theorem C12_release (ts : List Thread) (sched : List Nat) (i : Nat) (p : List Section)
